@@ -132,6 +132,13 @@ Fixpoint eval (E : genv) (e : gx) : outcome val :=
   match e with
   | XVar v => Return (e_var E v)
   | XIdx a k => match nth_error (e_arr E a) (Z.to_nat k) with Some v => Return v | None => Raise IndexErr end
+  | XIdxE a i => bind (eval E i) (fun iv =>
+                  match iv with
+                  | VZ k | VI32 k =>
+                      if k <? 0 then Raise OtherErr        (* a negative index counts from the end: not modelled *)
+                      else match nth_error (e_arr E a) (Z.to_nat k) with Some v => Return v | None => Raise IndexErr end
+                  | VF _ => Raise IndexErr
+                  end)
   | XLen a => Return (VZ (Z.of_nat (List.length (e_arr E a))))
   | XInt z => Return (VZ z)
   | XFlt z => Return (VF (f_of_Z z))
@@ -189,6 +196,7 @@ Definition astype_elem (t : aty) (v : val) : outcome val :=
 Fixpoint arange_args (e : gx) : list gx :=
   match e with
   | XArange n => [n]
+  | XIdxE _ i => arange_args i
   | XAdd a b | XSub a b | XMul a b | XTrueDiv a b => arange_args a ++ arange_args b
   | XRint a | XNpArray a | XNpInt32 a => arange_args a
   | XIf _ a b => arange_args a ++ arange_args b
@@ -217,30 +225,42 @@ Definition axis (a s n : Z) : list Z := map (fun k => a + s * k) (zrange 0 n).
 Definition zlen {A} (l : list A) : Z := Z.of_nat (List.length l).
 
 (* a regular 3-D source: inline / crossline axes (start, step, count), their element type (np.intc as segyio gives, or int64
-   as a NumPy-route caller may give), the sample axis *)
-Record cube := { c_il0 : Z; c_ils : Z; c_iln : Z; c_xl0 : Z; c_xls : Z; c_xln : Z; c_i32 : bool; c_samples : list val }.
-Definition c_ilines (c : cube) : list Z := axis (c_il0 c) (c_ils c) (c_iln c).
-Definition c_xlines (c : cube) : list Z := axis (c_xl0 c) (c_xls c) (c_xln c).
+   as a NumPy-route caller may give), the sample axis; and the part of it that is converted: geom = Geometry3d(w_il0,
+   w_il0 + w_iln, w_xl0, w_xl0 + w_xln) in ORDINALS of the source axes.  A whole-source conversion (SegyConverter without
+   min_il..max_xl, NumpyConverter) has the window (0, n_il, 0, n_xl): see whole_cube. *)
+Record cube := { c_il0 : Z; c_ils : Z; c_iln : Z; c_xl0 : Z; c_xls : Z; c_xln : Z; c_i32 : bool; c_samples : list val;
+                 c_wil0 : Z; c_wiln : Z; c_wxl0 : Z; c_wxln : Z }.
+Definition whole_cube (il0 ils iln xl0 xls xln : Z) (i32 : bool) (samples : list val) : cube :=
+  {| c_il0 := il0; c_ils := ils; c_iln := iln; c_xl0 := xl0; c_xls := xls; c_xln := xln; c_i32 := i32; c_samples := samples;
+     c_wil0 := 0; c_wiln := iln; c_wxl0 := 0; c_wxln := xln |}.
+(* the source's axes, and the axes the SGZ file must report: the source's restricted to the window *)
+Definition c_src_ilines (c : cube) : list Z := axis (c_il0 c) (c_ils c) (c_iln c).
+Definition c_src_xlines (c : cube) : list Z := axis (c_xl0 c) (c_xls c) (c_xln c).
+Definition c_ilines (c : cube) : list Z := axis (c_il0 c + c_ils c * c_wil0 c) (c_ils c) (c_wiln c).
+Definition c_xlines (c : cube) : list Z := axis (c_xl0 c + c_xls c * c_wxl0 c) (c_xls c) (c_wxln c).
 Definition mk_line (i32 : bool) (z : Z) : val := if i32 then VI32 z else VZ z.
-(* the arguments make_header receives for it (make_header_seismic_file / make_header_numpy; geom = Geometry3d(0, n_il, 0, n_xl)) *)
+(* the arguments make_header receives for it (make_header_seismic_file / make_header_numpy) *)
 Definition env_of_cube (c : cube) : genv :=
   {| e_var := fun v => match v with V_tracecount => VZ (c_iln c * c_xln c) | _ => VZ 0 end;
      e_arr := fun a => match a with
-                       | A_ilines => map (mk_line (c_i32 c)) (c_ilines c)
-                       | A_xlines => map (mk_line (c_i32 c)) (c_xlines c)
+                       | A_ilines => map (mk_line (c_i32 c)) (c_src_ilines c)
+                       | A_xlines => map (mk_line (c_i32 c)) (c_src_xlines c)
                        | A_samples => c_samples c
-                       | A_geom_ilines => map VZ (zrange 0 (c_iln c))
-                       | A_geom_xlines => map VZ (zrange 0 (c_xln c))
+                       | A_geom_ilines => map VZ (zrange (c_wil0 c) (c_wil0 c + c_wiln c))
+                       | A_geom_xlines => map VZ (zrange (c_wxl0 c) (c_wxl0 c + c_wxln c))
                        | A_geom_traces => []
                        end;
      e_flag := fun _ => false; e_idx := None; e_u32 := fun _ => 0; e_f64 := fun _ => f_zero; e_ver := 0 |}.
 (* well-formedness of the source (the quantifier of C05): at least two lines per axis, non-zero steps, every line number an
-   int32, the trace count fits the 32-bit field; int64 axes additionally need a step that struct.pack('<i') accepts *)
+   int32; int64 axes additionally need a step that struct.pack('<i') accepts; the window is a non-empty ordinal range inside
+   the source and its trace count fits the 32-bit field *)
 Definition axis_ok (a s n : Z) (i32 : bool) : bool :=
   (2 <=? n) && negb (s =? 0) && int32_ok a && int32_ok (a + s * (n - 1)) && (i32 || int32_ok s).
+Definition window_ok (w0 wn n : Z) : bool := (0 <=? w0) && (1 <=? wn) && (w0 + wn <=? n).
 Definition cube_ok (c : cube) : bool :=
   axis_ok (c_il0 c) (c_ils c) (c_iln c) (c_i32 c) && axis_ok (c_xl0 c) (c_xls c) (c_xln c) (c_i32 c)
-  && (c_iln c * c_xln c <? two32).
+  && window_ok (c_wil0 c) (c_wiln c) (c_iln c) && window_ok (c_wxl0 c) (c_wxln c) (c_xln c)
+  && (c_wiln c * c_wxln c <? two32).
 (* "the header field at byte offset off of the file written for c holds the unsigned value v" *)
 Definition written (c : cube) (off v : Z) : Prop :=
   exists f, In (off, f) wr_fields /\ eval_fv (env_of_cube c) f = Return v.
